@@ -205,9 +205,14 @@ func (g *gen) genStmt() (n *Node, term bool) {
 		3,  // 12 tuple assign
 		4,  // 13 guarded index
 		6,  // 14 struct statement
+		9,  // 15 side-note statements (side.go)
+		0,  // 16 goto
+	}
+	if g.gotoProg && g.on(kGoto) {
+		w[16] = 6
 	}
 	if deep {
-		w[2], w[3], w[4], w[10], w[13] = 2, 0, 0, 0, 0
+		w[2], w[3], w[4], w[10], w[13], w[16] = 2, 0, 0, 0, 0, 0
 	}
 	if len(g.f.loops) == 0 {
 		w[5] = 0
@@ -268,6 +273,13 @@ func (g *gen) genStmt() (n *Node, term bool) {
 		return g.stTuple(), false
 	case 13:
 		return g.stGuard(), false
+	case 15:
+		if n := g.stSide(); n != nil {
+			return n, false
+		}
+		return g.stAssign(), false
+	case 16:
+		return g.stGoto(), false
 	default:
 		return g.stStruct(), false
 	}
